@@ -1,0 +1,36 @@
+// Copyright 2024 The Wuffs Authors.
+//
+// Licensed under the Apache License, Version 2.0 <LICENSE-APACHE or
+// https://www.apache.org/licenses/LICENSE-2.0> or the MIT license
+// <LICENSE-MIT or https://opensource.org/licenses/MIT>, at your
+// option. This file may not be copied, modified, or distributed
+// except according to those terms.
+//
+// SPDX-License-Identifier: Apache-2.0 OR MIT
+
+//go:build !verif
+
+package cgen
+
+import (
+	a "github.com/google/wuffs/lang/ast"
+	t "github.com/google/wuffs/lang/token"
+)
+
+// See range_verif.go, which is only compiled under the "verif" build tag.
+
+type verifState struct{}
+
+func verifNop() {}
+
+func (g *gen) verifStatement(n *a.Node) func() { return verifNop }
+
+func (g *gen) verifWriteExpr(b *buffer, n *a.Expr, sideEffectsOnly bool, depth uint32) (bool, error) {
+	return false, nil
+}
+
+func (g *gen) verifWriteAssignOp(b *buffer, op t.ID, lhs *a.Expr, rhs *a.Expr, skipRHS bool) (bool, error) {
+	return false, nil
+}
+
+func (g *gen) verifWritePreamble(b *buffer) {}
